@@ -967,3 +967,187 @@ def class_program(cfg=None):
         g = GK(draw, cfg)
         return g.scenario()
     return strat()
+
+
+# ======================================================================================
+# exception profile (C04)
+# ======================================================================================
+BUILTIN_ERRORS = ["Error", "RuntimeError", "TypeError", "IndexError", "ValueError", "PropertyError", "ImportError"]
+
+
+class GE(G):
+    """Core generator plus try/catch/raise in every statement position."""
+
+    def __init__(self, draw, cfg=None):
+        G.__init__(self, draw, cfg or Cfg(max_depth=3, p_confuse=0, exceptions=True))
+        self.user_errors = []  # (name, parent)
+        self.raisers = []  # (name, nparams, error class)
+        self.try_depth = 0
+
+    def prelude(self):
+        out = []
+        for i in range(self.i(0, 3)):
+            name = "E%d" % (i + 1)
+            parent = "Error"
+            if self.user_errors and self.chance(50):
+                parent = self.pick(self.user_errors)[0]
+            elif self.chance(30):
+                parent = self.pick(BUILTIN_ERRORS)
+            self.user_errors.append((name, parent))
+            out.append(("class", name, parent, None, [], []))
+            self.declare(Var(name, "class", False))
+        # chains of raiser functions with parameters and locals
+        prev = None
+        for i in range(self.i(1, 4)):
+            name = "r%d" % (i + 1)
+            np_ = self.i(0, 3)
+            params = ["a%d_%d" % (i, j) for j in range(np_)]
+            body = []
+            for j in range(self.i(0, 2)):
+                body.append(("let", "l%d_%d" % (i, j), ("num", float(j))))
+            if prev is None or self.chance(35):
+                cls = self.err_class()
+                body.append(("raise", ("call", ("var", cls), [("str", name)])))
+            else:
+                pname, pn, cls = prev
+                body.append(("expr", ("call", ("var", pname), [("num", float(k)) for k in range(pn)])))
+                body.append(("print", ("str", "unreachable " + name)))
+            self.raisers.append((name, np_, cls))
+            prev = (name, np_, cls)
+            out.append(("fn", name, params, body))
+            self.declare(Var(name, "raiser", False))
+        return out
+
+    def err_class(self):
+        pool = BUILTIN_ERRORS + [n for (n, _) in self.user_errors]
+        return self.pick(pool)
+
+    def ancestors(self, cls):
+        out = [cls]
+        d = dict(self.user_errors)
+        while cls in d:
+            cls = d[cls]
+            out.append(cls)
+        if out[-1] != "Error":
+            out.append("Error")
+        return out
+
+    def raise_source(self, depth):
+        """Statements that (probably) raise. Returns (stmts, error class name or None)."""
+        c = self.i(0, 99)
+        if c < 22:
+            cls = self.err_class()
+            return [("raise", ("call", ("var", cls), [("str", "m%d" % self.i(0, 9))]))], cls
+        if c < 45 and self.raisers:
+            name, np_, cls = self.pick(self.raisers)
+            return [("expr", ("call", ("var", name), [self.expr("num", 1) for _ in range(np_)]))], cls
+        if c < 60:
+            # runtime faults
+            k = self.i(0, 6)
+            e = [("bin", "+", ("nil",), ("num", 1.0)),
+                 ("index", ("list", [("num", 1.0)]), ("num", 5.0)),
+                 ("index", ("map", []), ("str", "k")),
+                 ("call", ("nil",), []),
+                 ("prop", ("num", 1.0), "nope"),
+                 ("call", ("prop", ("list", []), "nope"), []),
+                 ("un", "-", ("str", "s"))][k]
+            cls = ["RuntimeError", "IndexError", "KeyError", "RuntimeError", "RuntimeError", "PropertyError",
+                   "RuntimeError"][k]
+            return [("expr", e)], cls
+        if c < 75 and self.raisers:
+            # through a native callback
+            name, np_, cls = self.pick(self.raisers)
+            call = ("call", ("var", name), [("num", 0.0) for _ in range(np_)])
+            k = self.i(0, 2)
+            lst = ("list", [("num", 1.0), ("num", 2.0)])
+            if k == 0:
+                e = ("call", ("prop", ("call", ("prop", lst, "iter"), []), "each"), [("lambda", ["x"], ("block", [("expr", call)]))])
+            elif k == 1:
+                e = ("call", ("prop", ("call", ("prop", ("call", ("prop", lst, "iter"), []), "map"),
+                                        [("lambda", ["x"], ("expr", call))]), "list"), [])
+            else:
+                e = ("call", ("prop", ("call", ("prop", ("call", ("prop", lst, "iter"), []), "filter"),
+                                        [("lambda", ["x"], ("expr", call))]), "list"), [])
+            return [("expr", e)], cls
+        if c < 82 and self.in_loop and "break-continue" not in self.cfg.hazards:
+            return [("break",) if self.chance(50) else ("continue",)], None
+        if c < 90 and self.fn_ret:
+            k = self.fn_ret[-1]
+            return [("return", self.expr(k, 1)) if self.chance(70) or k != "nil" else ("return", None)], None
+        return [], None
+
+    def try_stmt(self, depth):
+        self.try_depth += 1
+        self.scopes.append([])
+        body = []
+        n_before = self.i(0, 2)
+        for _ in range(n_before):
+            body.extend(G.stmt(self, max(0, depth - 1)) if self.chance(60) else [("print", self.expr("num", 1))])
+        if depth > 0 and self.try_depth < 3 and self.chance(25):
+            body.append(self.try_stmt(depth - 1))
+        src, cls = self.raise_source(depth)
+        if self.chance(15) and src and src[0][0] not in ("break", "continue", "return"):
+            src = [("if", self.expr("bool", 1), src, None)]
+        body.extend(src)
+        if self.chance(40):
+            body.append(("print", ("str", "after")))
+        self.scopes.pop()
+        catches = []
+        ncatch = self.i(1, 3)
+        anc = self.ancestors(cls) if cls else ["Error"]
+        for ci in range(ncatch):
+            var = self.fresh("e")
+            c = self.i(0, 9)
+            if c < 3:
+                ccls = None
+            elif c < 7:
+                ccls = self.pick(anc)
+            else:
+                ccls = self.err_class()
+            self.scopes.append([Var(var, "err", False)])
+            cb = [("print", ("call", ("prop", ("call", ("prop", ("var", var), "cls"), []), "name"), []))]
+            if self.chance(50):
+                cb.append(("print", ("bin", "+", ("str", "msg "), ("call", ("prop", ("prop", ("var", var), "message"), "len"), []) if False else ("str", ""))))
+            for _ in range(self.i(0, 2)):
+                cb.extend(G.stmt(self, 0))
+            if self.chance(10) and self.raisers:
+                # an error raised while handling
+                name, np_, _c = self.pick(self.raisers)
+                cb.append(("expr", ("call", ("var", name), [("num", 0.0) for _ in range(np_)])))
+            self.scopes.pop()
+            catches.append((var, ccls, cb))
+        self.try_depth -= 1
+        return ("try", body, catches)
+
+    def after_try(self):
+        """Read everything in scope, then declare and use two new variables."""
+        out = []
+        for v in self.visible(lambda v: v.kind in ("num", "str", "bool", "nil")):
+            out.append(("print", ("var", v.name)))
+        a, b = self.fresh("n"), self.fresh("n")
+        out.append(("let", a, ("num", float(self.i(1, 9)))))
+        out.append(("let", b, ("bin", "+", ("var", a), ("num", 1.0))))
+        out.append(("print", ("bin", "*", ("var", a), ("var", b))))
+        self.declare(Var(a, "num", True))
+        self.declare(Var(b, "num", True))
+        return out
+
+    def stmt(self, depth):
+        if self.chance(30) and self.stmt_budget > 0:
+            self.stmt_budget -= 2
+            t = self.try_stmt(depth)
+            return [t] + self.after_try()
+        return G.stmt(self, depth)
+
+    def scenario(self):
+        out = self.prelude()
+        out.extend(self.stmts(self.i(2, 8), 3))
+        return out
+
+
+def exc_program(cfg=None):
+    @st.composite
+    def strat(draw):
+        g = GE(draw, cfg)
+        return g.scenario()
+    return strat()
